@@ -501,7 +501,11 @@ func (r *renderer) renderDefs(f *file) {
 		f.p("var %s = %sNewSet(%s)\n\n", s.Name, f.wire(), r.itemsExpr(f, s.Items))
 	}
 	if p == r.prog.Root && r.prog.ExtraDecl != "" {
-		f.p("%s\n", r.prog.ExtraDecl)
+		decl := r.prog.ExtraDecl
+		if strings.Contains(decl, "WIRE.") { // the qualifier of the wire package in this file
+			decl = strings.ReplaceAll(decl, "WIRE.", f.wire())
+		}
+		f.p("%s\n", decl)
 	}
 }
 
